@@ -11,15 +11,15 @@ func init() {
 }
 
 func runC14(opt *Options) int {
-	maxParams := 2
+	maxParams, wideParams := 2, 1
 	if opt.Thorough() {
-		maxParams = 3
+		maxParams, wideParams = 3, 2
 	}
 	lr := &laRun{
 		Opt:  opt,
 		Pkgs: []string{"method"},
 		Kernels: []layera.Kernel{
-			{Name: "K4.parse", Pkg: "method", Harness: "VerifHarness_C14_Parse", Unwind: 16, MaxPaths: 30000000, Workers: 16, SetInts: map[string]int{"VerifC14MaxParams": maxParams}},
+			{Name: "K4.parse", Pkg: "method", Harness: "VerifHarness_C14_Parse", Unwind: 16, MaxPaths: 30000000, Workers: 16, SetInts: map[string]int{"VerifC14MaxParams": maxParams, "VerifC14WideRegexParams": wideParams}},
 			{Name: "K4.notafunction", Pkg: "method", Harness: "VerifHarness_C14_NotAFunction", Unwind: 16},
 		},
 		Funcs:  []string{"method.Parse", "method.isError", "method.(*Definition).ArgDebug", "xtype.Accessible", "xtype.TypeOf"},
